@@ -81,7 +81,7 @@ def run(rep, ctx, tier):
     for sk in ("marlin_kzg10", "sonic_kzg10", "ipa", "marlin_pst13"):
         rows.append(("%s.trim" % sk, dict(name="trim", self_adt=S[sk]["adt"], trait=PC), S[sk]["adt"], ["TrimmingDegreeTooLarge"], [[1], [2]]))
     rows.append(("sonic_kzg10.trim#bounds", dict(name="trim", self_adt=S["sonic_kzg10"]["adt"], trait=PC), S["sonic_kzg10"]["adt"],
-                 ["UnsupportedDegreeBound"], [[4]]))
+                 ["UnsupportedDegreeBound"], [[4], [2]]))
     L = S["linear_codes"]["adt"]
     rows.append(("linear_codes.setup", dict(name="setup", self_adt=L, trait=PC), L, ["InvalidParameters"], [[1, 2]]))
     rows.append(("linear_codes.trim", dict(name="trim", self_adt=L, trait=PC), L, ["InvalidParameters"], [[1]]))
